@@ -9,7 +9,11 @@ COMPONENTS = {
         "race": True,
         "monitors_only": True,
         "timeout": {"quick": 420, "thorough": 1500},
-        "what": ("one real system stressed under the Go race detector in a child process: 16 (quick, 20 s) / 48 (thorough, 5 min) goroutines calling "
+        "what": ("child process under the Go race detector. (a) 3/20 of the budget, own system: rounds of 'tree consistency under spawn / termination overlap at the "
+                 "root' - the root has exactly one (sometimes zero / two) top-level children, all killed while 2-4 goroutines call System.ActorOf with actors whose "
+                 "OnPrelaunch takes 0.1-2 ms (seeded), then quiescence and the tree monitor (registry <-> root's children, both ways, = exactly the live top-level "
+                 "actors; ActorOf must not fail), finally System.Stop must stop every actor ever spawned (nothing registered, every actor saw its own OnKilled). "
+                 "(b) one real system stressed: 16 (quick, 17 s) / 48 (thorough) goroutines calling "
                  "System.ActorOf / Kill / Tell / Ask / FindActor / PipeTo / Entrust / Ping, Future.Result / Wait / Close / PipeTo (futures shared between "
                  "goroutines), EventStream.Subscribe / Publish / Unsubscribe / UnsubscribeAll, Ref.Clone / String / Equals on shared refs, while the actors "
                  "spawn children, stash, watch, schedule, panic (all six supervision decisions, failing restart hooks -> zombies), kill children and "
@@ -40,7 +44,11 @@ PROPERTIES = {
             "M1/M2: sync/atomic operations, sync.Map methods and channel operations are atomic accesses; sync.Mutex / sync.RWMutex give mutual exclusion (Lock exclusive, RLock shared)",
             "lexical lock tracking (per function, must-hold intersection at joins, same-base-expression rule, closures start with nothing held, caller-held locks unknown) errs "
             "towards false alarms except: base variable re-assigned between Lock and access, a callee/closure releasing the caller's lock, Unlock through an alias, contents of a "
-            "field escaping into locals/structs/results and used after Unlock (only local aliases of inner maps are followed) - these can hide a race from the table",
+            "field escaping into locals/structs/results and used after Unlock (followed: local aliases of inner maps, and local aliases of a tracked map field itself, "
+            "obtained by `x := B.f` or from a method whose return statement is `return R.f`) - these can hide a race from the table",
+            "container aliases: an access through a local alias of a tracked map gets credit for a lock of the same base only while it is the SAME acquisition under which the "
+            "alias was read from the field (a table captured in one critical section and used in a later one may be detached from the field: time-of-check/time-of-use); "
+            "this is conservative - it also flags a stale alias of a field that is in fact never re-assigned; aliases passed to callees / stored in structs are not followed",
             "accesses through reflection, unsafe, third-party code, or packages other than internal/actor, internal/future, internal/remoting are not inventoried; "
             "composite-literal initialisers (construction before sharing) are not accesses",
             "the once-published discipline (Future.err / message: written by the winner of closed.CompareAndSwap(false,true) before close(done), read by others after <-done) "
@@ -60,7 +68,10 @@ META = {
                  "Scheduler.jobKeys; a theorem also checks that every class has at least one site). If the table violates the discipline the proof breaks and the check names "
                  "the sites. Search on the real code: a 20 s / 5 min stress of one system under the Go race detector overlapping all documented-concurrent API calls with spawn, "
                  "child death, restart, stop, zombies; monitors for race reports (normalised to the pair of vivid sites), runtime fatal errors, escaped panics, hangs and "
-                 "registry/children/parent consistency at quiescence and after Stop."),
+                 "registry/children/parent consistency at quiescence and after Stop; plus rounds aimed at the root's child table (all top-level children of the root "
+                 "terminate while System.ActorOf calls with slow OnPrelaunch are in flight; tree monitor after every round; Stop stops everything). The inventory follows local aliases "
+                 "of a tracked map (also through a `return R.f` helper): a lock counts for such an access only within the critical section in which the alias was read "
+                 "(a table captured earlier and written under a later acquisition is reported as unprotected: detached-table TOCTOU)."),
         "design_ref": "DESIGN.md section 4 C10, section 2.4.5",
         "note": ("Trusted: Coq kernel + vm_compute; the translator (lexical lock tracking, role list) and its documented blind spots; the Go race detector (search only); "
                  "C01_single_consumer as an assumption. Found and fixed while building: data race on Future.timer between NewFuture and the timeout goroutine "
